@@ -12,7 +12,8 @@ MODULES = ["GroupbyVerif.Props.C01", "GroupbyVerif.Props.C04", "GroupbyVerif.Pro
 RULE = ("seeded random logical datasets (1-3 keys of int/float+NaN/str/bool/datetime+NaT/categorical-with-unused class, nulls anywhere, "
         "forced all-null groups, value dtype classes f64 f32 i64 i32 u8 bool M8[ns] m8[s], masks none/bool/slice/positions incl. "
         "all-false, negative bounds, repeats) x 8 reductions, plus exhaustive int/float keys for <= 5 rows in the thorough tier; "
-        "keys/values as ndarray or indexed pd.Series; non-trivial = at least 2 selected rows with non-null key; distinct = distinct (protocol line, reduction, containers)")
+        "keys/values as ndarray or indexed pd.Series, values also as a list of two columns with different null placement (each column against the definition), "
+        "single keys also as arrow chunked arrays (chunk-factorized representation); non-trivial = at least 2 selected rows with non-null key; distinct = distinct (protocol line, reduction, containers)")
 ASSUMPTIONS = [
     "label values are abstract ordered atoms mapped order-preservingly to real ints/floats/strings/dates/categories by the harness",
     "float values are small integers; positional masks within [-n, n)",
@@ -48,6 +49,12 @@ def gen_cases(tier, rng):
     for i in range(n):
         ds = gen_dataset(rng, max_rows=12 if tier == "quick" else 30, max_labels=4)
         ds["container"] = rng.choice(["ndarray", "ndarray", "series"])
+        if rng.random() < 0.2:
+            # several value columns in one call (each must equal the definition on its own) ...
+            ds["container"] = "two_columns"
+        if len(ds["keys"]) == 1 and ds["key_classes"][0] in ("int", "float", "str", "datetime", "bool") and len(ds["vals"]) >= 2 and rng.random() < 0.2:
+            # ... and keys in the chunk-factorized representation (arrow chunks: one dictionary per chunk)
+            ds["key_chunks"] = rng.randint(1, len(ds["vals"]) - 1)
         fns = FNS if i % 4 == 0 else rng.sample(FNS, 3)
         for fn in fns:
             yield {**ds, "fn": fn}
@@ -61,7 +68,19 @@ def gen_cases(tier, rng):
                                    container="ndarray", fn=fn)
 
 
+def companion(case):
+    """a second value column of the same dtype with its nulls in other places"""
+    vals = case["vals"]
+    nullable = any(v is None for v in vals) or case["vdt"] in ("f64", "f32", "M8ns", "m8s")
+    fill = next((v for v in vals if v is not None), 1)
+    comp = [fill if v is None else v for v in reversed(vals)]
+    if nullable:
+        comp = [None if i % 3 == 1 else v for i, v in enumerate(comp)]
+    return comp
+
+
 def call_public(case):
+    """-> list of canonical results, one per value column"""
     import numpy as np
     import pandas as pd
     from groupby_lib.groupby.core import GroupBy
@@ -71,8 +90,17 @@ def call_public(case):
     cont = case.get("container", "ndarray")
     if cont == "series":
         index = pd.Index([f"r{(i * 7) % max(n, 1)}_{i}" for i in range(n)])  # non-default, non-monotonic labels
-    keys = build_keys(case, index=index, container=cont)
-    values = build_values(case, index=index, container=cont, name="v" if cont == "series" else None)
+    two = cont == "two_columns"
+    keys = build_keys(case, index=index, container="ndarray" if two else cont)
+    if case.get("key_chunks"):
+        import pyarrow as pa
+        from .c02 import arrow_type
+        cut = case["key_chunks"]
+        whole = pa.array(np.asarray(keys), type=arrow_type(case["key_classes"][0]), from_pandas=True)
+        keys = pa.chunked_array([whole.slice(0, cut), whole.slice(cut)])
+    values = build_values(case, index=index, container="ndarray" if two else cont, name="v" if cont == "series" else None)
+    if two:
+        values = [values, build_values({**case, "vals": companion(case)})]
     mask = build_mask(case, index=index, as_series=(cont == "series"))
     gb = GroupBy(keys, sort=case.get("sort", True))
     fn = case["fn"]
@@ -80,12 +108,31 @@ def call_public(case):
         res = gb.size(mask=mask)
     else:
         res = getattr(gb, fn)(values, mask=mask)
+    if two and fn != "size":
+        if not isinstance(res, pd.DataFrame) or res.shape[1] != 2:
+            raise TypeError(f"expected a 2-column DataFrame, got {type(res).__name__}")
+        return [canon_result_series(res.iloc[:, j], case["key_classes"]) for j in range(2)]
     if not isinstance(res, pd.Series):
         raise TypeError(f"expected a Series, got {type(res).__name__}")
-    return canon_result_series(res, case["key_classes"])
+    return [canon_result_series(res, case["key_classes"])]
 
 
 def evaluate(case, drv):
+    res = evaluate_column(case, drv, 0)
+    if res["verdict"] == "ok" and case.get("container") == "two_columns" and case["fn"] != "size":
+        res2 = evaluate_column({**case, "vals": companion(case)}, drv, 1)
+        if res2["verdict"] != "ok":
+            res2["detail"]["case"] = case
+            res2["detail"]["note"] = "second value column (different null placement) != definition"
+            res2["tags"], res2["key"], res2["size"] = res["tags"], res["key"], res["size"]
+            return res2
+    return res
+
+
+_last = {}
+
+
+def evaluate_column(case, drv, col):
     kn, kind = model_kernel_for_public(case["fn"], case["vdt"])
     line = gb_proto_line(case, kn, kind)
     ans = drv.ask(line)
@@ -93,14 +140,17 @@ def evaluate(case, drv):
     model = parse_labelled(ans["model"])
     nsel = sum(1 for l, v, c in (spec or []) for _ in range(1))
     tags = [f"fn:{case['fn']}", f"vdt:{case['vdt']}", f"nkeys:{len(case['keys'])}", "mask:" + ("none" if case["mask"] is None else case["mask"][0]),
-            "cont:" + case.get("container", "ndarray"), "sort:" + str(case.get("sort", True))] + [f"kc:{c}" for c in case["key_classes"]]
+            "cont:" + case.get("container", "ndarray"), "sort:" + str(case.get("sort", True)),
+            "keyrepr:" + ("arrow-chunked" if case.get("key_chunks") else "flat")] + [f"kc:{c}" for c in case["key_classes"]]
     if spec is not None and any(c == 0 for _, _, c in spec) and case["fn"] not in ("size",):
         tags.append("all-null-or-empty-group-listed")
-    res = dict(tags=tags, size=len(case["vals"]), key=line + "|" + case["fn"] + "|" + case.get("container", ""),
+    res = dict(tags=tags, size=len(case["vals"]), key=line + "|" + case["fn"] + "|" + case.get("container", "") + "|" + str(case.get("key_chunks")),
                nontrivial=spec is not None and sum(c for _, _, c in spec) >= 2 or (spec is not None and len(spec) >= 2),
                bucket=(case["fn"], case["vdt"], tuple(case["key_classes"]), None if case["mask"] is None else case["mask"][0]))
     try:
-        got = call_public(case)
+        if col == 0:
+            _last["cols"] = call_public(case)
+        got = _last["cols"][col if len(_last["cols"]) > 1 else 0]
         err = None
     except Exception as e:  # noqa
         got, err = None, f"error:{type(e).__name__}: {str(e)[:160]}"
@@ -136,9 +186,13 @@ def shrink_candidates(case):
     m = case["mask"]
     if m is not None:
         yield {**case, "mask": None}
-    if case.get("container") != "ndarray":
+    if case.get("container") not in ("ndarray", "two_columns"):
         yield {**case, "container": "ndarray"}
+    if case.get("key_chunks") and case.get("container") != "two_columns":
+        yield {**case, "key_chunks": None}
     for i in range(n):
+        if case.get("key_chunks") and n - 1 <= case["key_chunks"]:
+            break
         if m is not None and m[0] == "p":
             break
         c = dict(case)
